@@ -8,7 +8,7 @@ export VERIF_ROOT="$here" REPO_ROOT="${REPO_ROOT:-/repo}" PYTHONPATH="${REPO_ROO
 /venv/bin/python -m harness.regen || echo "translator stopped (reported by the checks)"
 # 2. full .vo build of every theory
 cd coq
-files=$(ls Common/*.v Model/*.v Gen/*.v Proofs/*.v Check/*.v Props/*.v 2>/dev/null)
+files=$(ls Common/*.v Model/*.v Gen/*.v Proofs/*.v Check/*.v Props/*.v 2>/dev/null || true)
 coq_makefile -f _CoqProject -o Makefile $files
 echo "$files" | tr ' ' '\n' | sed '/^$/d' > .files.stamp.tmp
 timeout 3000 make -k -j16
